@@ -6,7 +6,9 @@ PROP = 'C07'
 IMPORTS = 'Model.Structure Corr.C07'
 KNOWN_CNT = 'c07-count-jump-negation'
 FAIL_NAMES = {1: 'decompile_loop', 2: 'decompile_if_else', 3: 'decompile_break', 4: 'unused_labels',
-              5: 'postprocess_decompiled (pass order / composition)', 6: 'raise output is not a flat bookended stream'}
+              5: 'postprocess_decompiled (pass order / composition)', 6: 'raise output is not a flat bookended stream',
+              7: 'malformed case', 8: 'canonical stream of the flat program: model vs time pass + label resolution of the implementation',
+              9: 'canonical stream of the reconstructed program: model vs desugar_blocks + time pass of the implementation'}
 
 def unesc(s):
     return s.replace('\\n', '\n').replace('\\\\', '\\')
@@ -17,6 +19,45 @@ def run_harness(v, args, seed):
     if rc != 0:
         v.obligation('harness c07 %s ran' % args[0], False, out[-800:])
     return lines
+
+def run_harness_parallel(v, n, seed, procs):
+    """`gen` split over several processes with derived seeds (deterministic in (seed, procs))"""
+    import subprocess
+    env = dict(os.environ); env.update({'RUST_BACKTRACE': '0', 'VERIF_REPO': REPO, 'VERIF_WORK': WORK})
+    ps = []
+    for k in range(procs):
+        e = dict(env); e['VERIF_SEED'] = str(seed * 1000 + k)
+        cnt = n // procs + (1 if k < n % procs else 0)
+        ps.append(subprocess.Popen([harness_bin('c07'), 'gen', str(cnt)], env=e, stdout=subprocess.PIPE, stderr=subprocess.STDOUT, text=True, errors='replace'))
+    lines = []
+    for k, p in enumerate(ps):
+        try:
+            out, _ = p.communicate(timeout=3000)
+        except subprocess.TimeoutExpired:
+            p.kill(); out, _ = p.communicate()
+            v.obligation('harness c07 gen (process %d) finished in time' % k, False, out[-400:])
+        if p.returncode != 0:
+            v.obligation('harness c07 gen (process %d) ran' % k, False, out[-800:])
+        lines += [l for l in out.splitlines() if '\t' in l]
+    return lines
+
+def merge_stats(stats):
+    tot = {}
+    for line in stats:
+        for f in line.split('\t'):
+            k, _, val = f.partition('=')
+            try:
+                if val.startswith('{'):
+                    d = json.loads(val); t = tot.setdefault(k, {})
+                    for kk, vv in d.items(): t[kk] = t.get(kk, 0) + vv
+                elif val.startswith('['):
+                    tot.setdefault(k, [])
+                    if len(tot[k]) < 3: tot[k] += json.loads(val)[:1]
+                else:
+                    tot[k] = tot.get(k, 0) + int(val)
+            except (ValueError, TypeError):
+                pass
+    return tot
 
 def split_src(src):
     host, _, body = src.partition('|')
@@ -86,10 +127,10 @@ def main(argv):
     guard_notes = [n for n in v.notes if 'guard absent' in n]
     phase('tables+coq build+audit+cargo build')
 
-    cases, srcs = [], []
+    cases, srcs, shapes = [], [], []
     notes = []
     oracle_fail = []
-    stats = ''
+    stats = []
     if h_ok:
         lines = []
         corpus = sorted(glob.glob(os.path.join(VERIF, 'corpus', 'C07', '*.body')))
@@ -103,15 +144,17 @@ def main(argv):
             host = 'Ecl' if '.Ecl.' in os.path.basename(f) else 'Anm'
             lines += run_harness(v, ['text', host, f], seed)
         if not replay:
-            n = 900 if tier == 'quick' else 30000
-            lines += run_harness(v, ['gen', n], seed)
+            n = 900 if tier == 'quick' else 20000
+            lines += run_harness_parallel(v, n, seed, 4 if tier == 'quick' else 12)
         for l in lines:
             parts = l.split('\t')
             if parts[0] == 'ORACLE-FAIL': oracle_fail.append(parts[1:])
-            elif parts[0] == 'STATS': stats = '\t'.join(parts[1:])
+            elif parts[0] == 'STATS': stats.append('\t'.join(parts[1:]))
             elif parts[0] == 'NOTE': notes.append(parts[1:])
             elif parts[0] == 'STRUCT':
                 cases.append(parts[1]); srcs.append(parts[2] if len(parts) > 2 else '')
+                m = re.match(r'shape:(\d+)/(\d+)/(\d+)/(\d+)', parts[3]) if len(parts) > 3 else None
+                shapes.append(tuple(int(x) for x in m.groups()) if m else (parts[3].count('SLoop'), parts[3].count('SChain'), 0, 0) if len(parts) > 3 else (0, 0, 0, 0))
 
     phase('harness')
     # (O) implementation-level oracle failures
@@ -152,7 +195,7 @@ def main(argv):
             if g >= 2000000: imism.append(g - 2000000)
             elif g >= 1000000: cmism.append(g - 1000000)
             else: mism.append(g)
-        v.obligation('correspondence: model passes = decompile_loop / decompile_if_else / decompile_break / unused_labels / default decompile on %d programs (6 comparisons each, vm_compute inside Coq)' % len(cases),
+        v.obligation('correspondence: model passes = decompile_loop / decompile_if_else / decompile_break / unused_labels / default decompile, and model canonical stream = desugar_blocks + time pass of the implementation, on %d programs (8 comparisons each, vm_compute inside Coq)' % len(cases),
                      not mism and not errs, ('%d mismatches; ' % len(mism)) + '; '.join(errs)[:600] if (mism or errs) else '')
         # the recorded class: the streams differ for truth's compiler but agree for one that could lower `unless (--x <= 0)`
         known_c = [i for i in cmism if i not in imism]
@@ -168,7 +211,7 @@ def main(argv):
                         {'class': 'c07-canon', 'host': host, 'source_text': body, 'case': cases[i][:6000]})
         for i in mism[:4]:
             host, body = split_src(srcs[i])
-            which, full = diagnose(v, host, body, seed)
+            which, full = diagnose(v, host, body, seed, cases[i])
             found = bool(oracle_fail) or bool(other_c)
             v.violation('model/implementation disagreement: %s' % (which or '?'),
                         {'class': 'c07-corr', 'host': host, 'source_text': body, 'case': (full or cases[i])[:8000], 'failing': which,
@@ -184,13 +227,13 @@ def main(argv):
         bad = [o for o in v.obligations if not o[1]]
         v.violation('obligation failed: %s' % bad[0][0], {'class': 'c07-obligation', 'broken': [list(b) for b in bad]}, no_failing_input=True)
 
-    nontriv = [c for c in cases if 'SLoop' in c or 'SChain' in c]
+    nontriv = [c for c, sh_ in zip(cases, shapes) if sh_[0] + sh_[1] > 0]
     v.coverage.update({
         'evaluations': len(cases),
         'distinct_nontrivial': distinct_count(nontriv),
         'rule': 'jump graphs as source text (ANM th12 / ECL th07): hand-flattened structured programs (loops, do-while, if/else-if/else chains, breaks, shared end labels, several end labels, time labels between loop and end label), the same with perturbations (retargeted jumps, extra jumps into/out of bodies, explicit `@ time`, offsetof/timeof references, interrupt labels, difficulty-tagged jumps and instructions, deleted statements), and random forward/backward jumps; <= 60 statements. Each is compiled, decompiled with blocks:false (the flat stream), the four passes are run one by one in-process, and the default decompilation is taken; non-trivial = the reconstruction produced at least one loop or cond chain; distinct = distinct case terms',
         'traces_validated_against_impl': len(cases),
-        'generator_stats': stats,
+        'generator_stats': merge_stats(stats),
         'oracle_failures_by_class': oracle_classes,
         'cli_roundtrips': n_cli,
         'astvm_notes': len(notes),
@@ -200,13 +243,13 @@ def main(argv):
     return v.finish(
         level='proof',
         checker_cmd='gen/structtable.py ; cd coq && make theories/Corr/C07.vo theories/Props/C07.vo ; coqc work/audit_C07.v (Print Assumptions) ; harness/target/debug/c07 gen|text ; coqc work/cases_C07/*.v ; truth-cli truanm|truecl compile/decompile[--no-blocks]',
-        trusted_base=['modelled, not verified: Model/Structure.v is a hand-written restatement of decompile_loop.rs, unused_labels.rs and of the layout desugar_blocks.rs gives to loops and cond chains; tied by the correspondence (pass-by-pass AST equality) and by evaluating the model\'s canonical stream on the implementation\'s own output against the recompile-and-compare-bytes oracle',
+        trusted_base=['modelled, not verified: Model/Structure.v is a hand-written restatement of decompile_loop.rs, unused_labels.rs and of the layout desugar_blocks.rs + the time pass give to loops and cond chains (canon_of); tied on every run by the correspondence: AST equality after each pass and for the default decompilation, and equality of canon_of with the canonical stream the harness computes from the implementation\'s own desugar_blocks::run + time_and_difficulty::run, for the flat and for the reconstructed program',
                       'instruction payloads, jump conditions\' operands and difficulty masks are opaque identifiers (interned text)'],
         assumptions=['the meaning of a partially structured program is its flattening (positions counted in instructions, times as assigned by the time pass in text order); equality of canonical streams = same instructions, times, difficulty masks, jump targets (position, time) and explicit time arguments',
                      'labels of a function body are pairwise distinct (well_labelled); loop ids are unique and lexical (checked on the implementation\'s output by the harness)',
-                     'C07_full additionally needs the cond-chain pass; see level_text'])
+                     'cond chains that negate a count jump (`--x > 0`) are excluded from C07_full: that is the recorded finding c07-count-jump-negation (C07_count_jump_negation_refuted)'])
 
-def diagnose(v, host, body, seed):
+def diagnose(v, host, body, seed, hashed=None):
     """re-run one program with all six programs as terms and ask the model which comparisons fail"""
     d = os.path.join(WORK, 'c07'); os.makedirs(d, exist_ok=True)
     p = os.path.join(d, 'diag.body'); open(p, 'w').write(body)
@@ -214,10 +257,13 @@ def diagnose(v, host, body, seed):
     for l in run_harness(v, ['text', host, p], seed):
         parts = l.split('\t')
         if parts[0] == 'STRUCT' and len(parts) > 3: full = parts[3]
-    if not full: return '', None
-    rc, o = sh(['coqc', '-noglob', '-Q', os.path.join(COQ, 'theories'), 'TV', write_failing(full)], timeout=300, cwd=d)
-    m = re.search(r'=\s*\[([^\]]*)\]', o)
-    which = ', '.join(FAIL_NAMES.get(int(x), x) for x in re.findall(r'\d+', m.group(1))) if m else ''
+    codes = set()
+    for term in (full, hashed):
+        if not term: continue
+        rc, o = sh(['coqc', '-noglob', '-Q', os.path.join(COQ, 'theories'), 'TV', write_failing(term)], timeout=300, cwd=d)
+        m = re.search(r'=\s*\[([^\]]*)\]', o)
+        if m: codes |= set(int(x) for x in re.findall(r'\d+', m.group(1)))
+    which = ', '.join(FAIL_NAMES.get(x, str(x)) for x in sorted(codes))
     return which, full
 
 def write_failing(case):
